@@ -147,6 +147,15 @@ func (sh fileShape) defect() string {
 
 var severity = map[string]int{"": 0, "torn-duration-field": 1, "incomplete-tail": 2, "segment-without-complete-part": 3, "unparsable-segment": 4}
 
+// partEnd returns the media end (as a duration from the segment start) of part i alone.
+func partEnd(seg *reclib.SegFile, i int) time.Duration {
+	one := *seg
+	info := *seg.Info
+	info.Parts = seg.Info.Parts[i : i+1]
+	one.Info = &info
+	return completeEnd(&one, 1)
+}
+
 // completeEnd returns the media end (as a duration from the segment start) of the complete parts.
 func completeEnd(seg *reclib.SegFile, n int) time.Duration {
 	var maxEnd time.Duration
@@ -317,7 +326,33 @@ func (e *evaluator) eval(w *reclib.WorkerCtx, idx int) Result {
 						if d == "" {
 							d = "neighbour-of-" + worst
 						}
-						viol("list", "complete-parts-not-covered", d,
+						// a class of its own: the span that begins early enough ends exactly where the LAST
+						// part on disk of an incomplete segment ends (its last complete part, or the
+						// incomplete one that follows, whose moof may be readable), although an earlier
+						// complete part holds media that ends later (tracks with skewed timestamps)
+						failure := "complete-parts-not-covered"
+						for _, o := range shapes {
+							if o.header != "ok" || o.complete == 0 || o.defect() == "" {
+								continue
+							}
+							full := completeEnd(o.seg, o.complete)
+							for _, pi := range []int{o.complete - 1, o.complete} {
+								if pi >= len(o.seg.Info.Parts) {
+									continue
+								}
+								pe := partEnd(o.seg, pi)
+								if pe >= full-tol {
+									continue
+								}
+								u := o.seg.Start.Add(pe)
+								for _, sp := range spans {
+									if df := sp.End().Sub(u); !sp.Start.After(s0.Add(tol)) && df >= -tol && df <= tol {
+										failure = "span-ends-with-the-last-part"
+									}
+								}
+							}
+						}
+						viol("list", failure, d,
 							fmt.Sprintf("no list span covers the complete parts of %s [%s, +%s]; spans=%s",
 								filepath.Base(sh.seg.Rel), s0.Format("15:04:05.000000"), e0.Sub(s0), strings.TrimSpace(string(body))))
 					}
